@@ -2,4 +2,4 @@
 Require Extraction.
 Require Import ExtrOcamlBasic.
 From Verif Require Import FramesM FramesCodec CancelM RegsM.
-Extraction "vm_model.ml" frames_case gospec_case gospec_flags_case cancel_case spawn_case.
+Extraction "vm_model.ml" frames_case gospec_case cancel_case spawn_case.
